@@ -112,6 +112,8 @@ def fingerprint_delta():
 
 
 def main(prop, tier, seed, replay=None):
+    import signal
+    signal.signal(signal.SIGPIPE, signal.SIG_DFL)     # `./check Cxx | head` must not end in a traceback
     t0 = time.time()
     os.environ.setdefault("NPTDMS_VERIF", "1")
     ctx = Ctx(prop, tier, seed)
